@@ -1,7 +1,7 @@
 import Pywbem.Model.TypedElems
 import Pywbem.Model.AtomicXml
 import Pywbem.Model.FloatText
-import Pywbem.Model.Utf8
+import Pywbem.Model.Utf8Decode
 open Lean Pywbem.Proto Pywbem.Model.CimTypes Pywbem.Model.DateTime Pywbem.Model.CimValue Pywbem.Model.TypedElems Pywbem.Model.AtomicXml Pywbem.Model.FloatText
 
 /-! C06 driver.  One JSON object per line.
@@ -162,7 +162,7 @@ def envOf (scalars : List Json) : Env :=
         (if isB then getStr j "k" == some "bytes" else (getStr j "k" == some "str" || getStr j "k" == some "char16")) &&
         ((if isB then natsOf j "s" else ((getChars j "s").getD []).map Char.toNat) == cps))).bind
         (fun j => (getInt j "pf").map Int.toNat)
-    utf8 := Pywbem.Model.Utf8.utf8Decode       -- concrete model of bytes.decode('utf-8') (no longer supplied by the harness)
+    utf8 := Pywbem.Model.Utf8Decode.utf8Decode       -- concrete model of bytes.decode('utf-8') (no longer supplied by the harness)
     uri := fun s =>
       (scalars.find? (fun j => (getStr j "k" == some "str" || getStr j "k" == some "char16") && (getChars j "s").getD [] == s)).bind
         (fun j => getBool j "uri") }
@@ -317,7 +317,7 @@ def handle (j : Json) : Json :=
   | some "utf8" =>
     -- {"op":"utf8","items":[[byte…]…]} → [[cp…]|null]
     Json.mkObj [("ok", Json.arr ((getArr j "items").map (fun it =>
-      optToJson cpsToJson (Pywbem.Model.Utf8.utf8Decode ((match it with | .arr a => a.toList | _ => []).filterMap jsonToNat?)))).toArray)]
+      optToJson cpsToJson (Pywbem.Model.Utf8Decode.utf8Decode ((match it with | .arr a => a.toList | _ => []).filterMap jsonToNat?)))).toArray)]
   | some "dteq" =>
     -- {"op":"dteq","pairs":[[DT,DT]…]} → [true|false|{"exc":…}]   (CIMDateTime.__eq__ of two distinct objects)
     let outs := (getArr j "pairs").map (fun pr =>
